@@ -69,12 +69,14 @@ class Family:
             return [ds.X[0], ds.X[1], ds.Y[0]]
         return [ds.X, ds.Y]
 
-    def transform(self, model, ds, **kw):
-        """Always returns a list of DataArrays (one per field)."""
+    def transform(self, model, ds, wrap=False, **kw):
+        """Always returns a list of DataArrays (one per field).  wrap: a single data object is passed as a
+        one-element list (the same call)."""
+        w = (lambda o: [o] if wrap and not isinstance(o, list) else o)
         if self.kind == "single":
-            return [model.transform(ds.X, **kw)]
+            return [model.transform(w(ds.X), **kw)]
         if self.kind == "cross":
-            return list(model.transform(ds.X, ds.Y, **kw))
+            return list(model.transform(w(ds.X), w(ds.Y), **kw))
         return list(model.transform(self.views(ds)))
 
     def scores(self, model, **kw):
